@@ -434,9 +434,9 @@ Qed.
 Lemma deliver_fate cf names fdok replies o id from serial cl :
   fate_of (snd (deliver cf names fdok replies o id from serial cl)) = [id].
 Proof.
-  unfold deliver. destruct (negb (pol_deliver cf names cl)); [reflexivity|].
-  destruct (msg_reply cf cl && (max_replies cf <=? count_replies from replies)); [reflexivity|].
-  destruct (msg_fd cf cl && negb fdok); reflexivity.
+  unfold deliver. destruct (msg_fd cf cl && negb fdok); [reflexivity|].
+  destruct (negb (pol_deliver cf names cl)); [reflexivity|].
+  destruct (msg_reply cf cl && (max_replies cf <=? count_replies from replies)); reflexivity.
 Qed.
 
 Lemma fates_replay_gen cf st names fdok o : forall es replies,
